@@ -47,10 +47,11 @@ type Parser struct {
 //
 // The bound is also what one activation of a macro (and one level of include/extends) can
 // put on the stack at most: macros recurse up to maxMacroDepth activations, each with
-// the nesting of its body in between, and a stack overflow cannot be recovered from. At
-// a few hundred bytes per level, 1000 levels x 1000 activations stay well below Go's
-// 1 GB stack limit; 10000 levels did not (a 20 KB macro body was enough).
-const maxNestingDepth = 1000
+// the nesting of its body in between, and a stack overflow cannot be recovered from. One
+// level of nesting costs up to about 1.3 KB of stack when it is executed (a subscript or
+// call argument: variableResolver.resolve; a for-loop), so 1000 levels x 1000 activations
+// do not fit into Go's 1 GB stack limit; 250 do, with room to spare.
+const maxNestingDepth = 250
 
 // deeper accounts for n more levels of nesting and refuses to go beyond the bound.
 func (p *Parser) deeper(n int) *Error {
